@@ -599,7 +599,7 @@ pub fn run(cfg: &RunCfg) -> Report {
     let mut rep = Report::new(
         "C18",
         "exploration",
-        "strings fed to all 13 FromStr implementations and 18 JSON entry points (serde_json::from_str into every serde type, PriceLevelSnapshotPackage::from_json, PriceLevel::from_snapshot_json): (i) a valid encoding printed by the library, mutated by 1-4 character-level edits (delete, insert, substitute, duplicate a span, truncate, replace a number by an out-of-range one) with a palette containing multi-byte and case-mapping characters, sometimes fed to another type's parser; (ii) token soup from the grammars' own keys, separators, type names and huge numbers; (iii) arbitrary Unicode; (iv) huge inputs: a valid encoding with one token ('[', '[[', ';a=b', a multi-byte character, ...) repeated 1 000 - 130 000 times inserted at a generated position (up to 600 KB), each parsed in a child process so that a stack overflow or abort is observed. Oracle: the call returns Ok or Err (catch_unwind / child exit status), never panics or aborts; inputs of (i)-(iii) <= 4 KB. Non-trivial = input that differs from every valid base encoding and gets past the first format test (has the type prefix / is syntactically valid JSON); distinct = hash of (entry point, input). The thorough tier adds a coverage-guided libFuzzer campaign (fuzz target parse_any).",
+        "strings fed to all 13 FromStr implementations and 18 JSON entry points (serde_json::from_str into every serde type, PriceLevelSnapshotPackage::from_json, PriceLevel::from_snapshot_json): (i) a valid encoding printed by the library, mutated by 1-4 character-level edits (delete, insert, substitute, duplicate a span, truncate, replace a number by an out-of-range one) with a palette containing multi-byte and case-mapping characters, sometimes fed to another type's parser; (ii) token soup from the grammars' own keys, separators, type names and huge numbers; (iii) arbitrary Unicode; (iv) huge inputs: a valid encoding with one token ('[', '[[', ';a=b', a multi-byte character, ...) repeated 1 000 - 130 000 times inserted at a generated position (up to 600 KB), each parsed in a child process so that a stack overflow or abort is observed. Oracle: the call returns Ok or Err (catch_unwind / child exit status), never panics or aborts; inputs of (i)-(iii) <= 4 KB. Since rounds 4-5: edits also swap two whole fields, move blocks, and widen a character to a multi-byte one while deleting following characters so that the byte length is unchanged; every fourth worker parses under a log subscriber that evaluates every tracing event. Non-trivial = input that differs from every valid base encoding and gets past the first format test (has the type prefix / is syntactically valid JSON); distinct = hash of (entry point, input). The thorough tier adds a coverage-guided libFuzzer campaign (fuzz target parse_any).",
     );
     rep.assumptions = vec![
         "hangs are not detected by this oracle (a wall-clock watchdog around the whole check reports them as inconclusive, exit 2)".into(),
